@@ -3,7 +3,8 @@
 # models, bit readers never read past their buffer, the LZW table is bounded (the logic half).
 #        and (Sys/C04GuardProofs.v) the guard logic of the traversals, limits and conversions: termination within an explicit
 #        bound, node visits bounded by the number of nodes, revisits reported, depth limits, no wrapped conversion,
-#        at most two xref reconstructions.  Tie: harness/c04guards.py (random hostile graphs, real qpdf vs extracted model).
+#        at most two xref reconstructions; the qpdf-JSON import boundary (which exception can leave importJSON); Pl_PNGFilter's row buffers.
+#        Tie: harness/c04guards.py (random hostile graphs, real qpdf vs extracted model), harness/c04json.py (hostile qpdf JSON documents).
 # Observed (testing, labelled so): the real qpdf CLI and the in-process drivers built with ASan+UBSan
 # (-fno-sanitize-recover) are fed a malformed stream (mutations of generated documents, repository corpus and
 # fuzz seeds with a PDF token dictionary and structure-aware edits); every run must end in a documented way.
@@ -14,9 +15,11 @@ from pdfgen import D, N, Ref
 
 ASSUMPTIONS = [
     "guard theorems (Sys/C04GuardProofs.v) speak about the Gallina models of Sys/Guards.v, over abstract object graphs without a node of id 0; the models are tied to /repo by the random-graph correspondence of this check (CLI outcome category, page / entry / helper / warning counts, driver results), not by a proof about the C++",
-    "guard part: CPU budget 1 s + 0.05 ms per input byte and RSS budget 150 MB + 0.4 kB per byte per qpdf run (plain build, ulimit -v 4 GB, 40 s hard stop); an overrun is re-run alone before it is reported",
+    "guard part: CPU budget 1 s + 0.05 ms per input byte and RSS budget 150 MB + 0.4 kB per byte per qpdf run (plain build, ulimit -v 4 GB; hard stops: CPU 3 x budget + 1 s, 20 MB of output, 40 s wall - a run that reaches one of them is a hang); a budget overrun is re-run alone before it is reported",
+    "qpdf JSON import: the CLI prints every std::exception as `qpdf: <what>` with exit 2, so the TYPE of an exception is observed in process only (harness/drv_guards.cc c4json: createFromJSON / updateFromJSON, then QPDFWriter::write); the model c4_import_json takes what callees throw (JSON syntax errors, QPDFObjectHandle::parse) as given",
+    "read_xref in process: `the offsets read_xref is asked to read` = absolute seeks that are followed by a one-byte read (its white-space skip) or that fail, cut down to the offsets a startxref / /Prev of the generated file can name",
     "memory safety, undefined behaviour, leaks, wall-clock time and memory use of the C++ are NOT expressible in the Gallina models: they are observed only, on the sampled malformed stream, by the sanitizers and budgets (partial, DESIGN §8)",
-    "budgets are loose multiples (20 s + 2 ms per input byte, 4 GB address space outside ASan) so that correct code never trips them; an overrun is re-run alone before it is reported",
+    "budgets are loose multiples (20 s + 2 ms per input byte, 4 GB address space outside ASan) so that correct code never trips them; an overrun is re-run alone before it is reported; when the sanitizer runtime itself runs out of memory (out-of-memory / hard_rss_limit_mb=6000: its operator new cannot fail, its shadow multiplies the footprint) the input is judged by the plain build under the 4 GB address-space limit instead - memory use without the library's protective limits is outside the property",
     "DCT (libjpeg), zlib internals and the C API beyond what the drivers call are outside",
 ]
 
@@ -28,6 +31,7 @@ TOKENS = [b"obj", b"endobj", b"stream", b"endstream", b"xref", b"trailer", b"sta
 
 SAN_RE = re.compile(rb"ERROR: (AddressSanitizer|LeakSanitizer|UndefinedBehaviorSanitizer)|runtime error:|SUMMARY: \w*Sanitizer", re.M)
 INTERNAL_RE = re.compile(rb"INTERNAL ERROR|logic_error|std::logic_error|terminate called|Assertion .* failed|internal error", re.I)
+ASAN_RESOURCE_RE = re.compile(rb"AddressSanitizer: (out-of-memory|allocation-size-too-big|requested allocation size)|hard rss limit exhausted", re.I)
 
 
 def mutate(rng, data):
@@ -190,8 +194,10 @@ def run(chk):
     chk.cov["rule"] = ("malformed stream: byte-level and token-dictionary mutations (1-6 per input) of generated documents, repository corpus files "
                        "(<= 60 kB) and the fuzz seed corpus, plus hand-built hostile structures (cycles in /Kids, /Parent, /Prev, name trees, outlines, object "
                        "streams; predictor parameters at the limits) x entry points {--check, rewrite, --qdf, --linearize, --json-output, --json-input, "
-                       "--show-pages, --list-attachments} under ASan+UBSan; non-trivial = input that makes qpdf warn or fail, distinct by input bytes")
-    env = {"ASAN_OPTIONS": "detect_leaks=1:abort_on_error=0:exitcode=99:allocator_may_return_null=1", "UBSAN_OPTIONS": "print_stacktrace=1:halt_on_error=1:exitcode=98"}
+                       "--show-pages, --list-attachments} under ASan+UBSan; non-trivial = input that makes qpdf warn or fail, distinct by input bytes; "
+                       "guard part: random and aimed hostile graphs (page trees, cross-reference sections with white space in front, outlines, AcroForm, number trees) vs the extracted model; "
+                       "JSON part: qpdf JSON documents from abstract entry sequences (vs the extracted model) and from a grammar of the format (property only)")
+    env = {"ASAN_OPTIONS": "detect_leaks=1:abort_on_error=0:exitcode=99:allocator_may_return_null=1:hard_rss_limit_mb=6000", "UBSAN_OPTIONS": "print_stacktrace=1:halt_on_error=1:exitcode=98"}
     phase("builds")
     seeds = []
     for name, data, doc in filecheck.gen_docs(rng, 4 if quick else 20):
@@ -239,6 +245,20 @@ def run(chk):
         t = time.time()
         rc, so, se = common.run_qpdf(args, timeout=budget * 3, env=env, exe=qpdf_asan)
         cls = classify(rc, so[-4000:], se[-20000:], time.time() - t, budget * 3)
+        if cls != "ok" and ASAN_RESOURCE_RE.search(se):
+            # the sanitizer runtime gave up on MEMORY (its allocator cannot return null from operator new, its shadow multiplies the
+            # footprint): that is not a memory-safety report.  What the property says about such an input - a documented outcome -
+            # is decided by the plain build under the address-space limit and the same time budget
+            t = time.time()
+            try:
+                q = subprocess.run(["bash", "-c", "ulimit -v 4000000; exec \"$0\" \"$@\"", common.QPDF] + args, stdout=subprocess.PIPE, stderr=subprocess.PIPE,
+                                   timeout=budget * 3)
+                rc, so, se = q.returncode, q.stdout, q.stderr
+            except subprocess.TimeoutExpired:
+                rc, so, se = -999, b"", b"timeout"
+            cls = classify(rc, so[-4000:], se[-20000:], time.time() - t, budget * 3)
+            if cls == "ok":
+                return "ok", "%s-plain-after-asan-memory" % rc, se[-1500:]
         if cls == "ok" and se.count(b"Attempting to reconstruct cross-reference table") > 2:
             cls = "more-than-two-xref-reconstructions"
         return cls, rc, se[-1500:]
@@ -247,7 +267,7 @@ def run(chk):
     nontriv = set()
     for (p, m, n), (cls, rc, se) in zip(jobs, res):
         kinds[cls + "/exit%s" % rc] = kinds.get(cls + "/exit%s" % rc, 0) + 1
-        if rc in (2, 3):
+        if rc in (2, 3) or str(rc).startswith(("2-", "3-")):
             nontriv.add(p)
         if cls != "ok":
             # reproduce alone before reporting (budgets, flaky resource pressure)
@@ -290,7 +310,9 @@ def run(chk):
     for lim in ([100000, 1000000] if quick else [1000, 100000, 1000000, 5000000]):
         for csize in ([1024, 10240, 65536] if quick else [2, 64, 1024, 10240, 32768, 65536]):
             per = (csize // 2) * 128
-            nch = min(400, int(lim // per) + 12)
+            if int(lim // per) + 12 > 400:
+                continue                  # the limit would not be reached within the 400 writes a case may have
+            nch = int(lim // per) + 12
             llines.append("limit rld %d %d %s" % (lim, nch, (b"\x81\x00" * (csize // 2)).hex()))
             lmeta.append(("rld", lim, csize, per, nch))
     louts = common.run_lines(drv_asan, llines, env=env)
@@ -384,7 +406,7 @@ def replay(chk, rep):
     print(json.dumps(rep, indent=1)[:3000])
     # a recorded JSON import case: the same text through createFromJSON / updateFromJSON in process (exception type) once more
     if rep.get("case_kind") == "json" and rep.get("input") and os.path.exists(rep["input"]) and rep["input"].endswith(".json"):
-        mode = "u" if "/u" in (rep.get("tag") or "") else "c"
+        mode = "u" if ("mode u" in (rep.get("why") or "") or "--update-from-json" in " ".join(rep.get("argv") or [])) else "c"
         line = "c4json %s %s%s" % (mode, open(rep["input"], "rb").read().hex() or "-", " " + c04json.base_pdf().hex() if mode == "u" else "")
         print("replayed (%s): %s" % ("updateFromJSON on the two-page base document" if mode == "u" else "createFromJSON",
                                      c04guards._drv(common.build_drv(), [line], 60)))
